@@ -316,6 +316,10 @@ def saturation(acc, nw):
                                 one_sat(acc, f, rnd, rt, _dy_of_float(sgn * v), 'list')
                         for v in ints:
                             one_sat(acc, f, rnd, rt, (sgn * v, 0), 'int')
+                            if rt in ('ctor', 'set_val') and rnd in ('trunc', 'around'):
+                                # the same Python integers inside containers (NumPy picks int64 / uint64 / float64 / object for them)
+                                for cr in ('list', 'nlist', 'tuple', 'ntuple', 'ltuple'):
+                                    one_sat(acc, f, rnd, rt, (sgn * v, 0), cr)
 
 
 def one_sat(acc, f, rnd, rt, d, carrier):
@@ -347,6 +351,84 @@ def one_sat(acc, f, rnd, rt, d, carrier):
     acc.sample(case, 1)
 
 
+# ------------------------------------------------------------------------------------------ views and copies
+DERIVE = ('slice', 'index_row', 'copy', 'T', 'element', 'reversed')
+WIDEN = ('n_word+8', 'n_word+8,n_frac+2', 'signed_flip', 'dtype', 'n_word=64', 'narrow')
+WRITE = ('setitem', 'set_val_index', 'set_val_raw_index', 'whole', 'inplace_or')
+
+
+def views_case(acc, f, shape, derive, widen, write):
+    """parent -> derived object (view / shallow copy / transposed) -> the derived one is re-formatted -> a value legal only in the NEW format
+    is written through it: every object alive afterwards (the parent above all) must still be well-formed"""
+    case = {'part': 'V', 'fmt': list(f), 'shape': list(shape), 'derive': derive, 'widen': widen, 'write': write}
+    n = int(np.prod(shape))
+    acc.evaluations += 1
+    acc.transitions += 3
+    acc.nontrivial += 1
+    acc.dim('derive', derive)
+    acc.dim('widen', widen)
+    try:
+        p = Fxp(np.array([f.lo, f.hi, 0, 1 if f.hi >= 1 else 0][:n] + [0] * max(0, n - 4), dtype=np.int64).reshape(shape), f.signed, f.n_word, f.n_frac, raw=True)
+        if derive == 'slice':
+            c = p[0:2]
+        elif derive == 'index_row':
+            c = p[1] if len(shape) == 2 else p[1:2]
+        elif derive == 'copy':
+            c = p.copy()
+        elif derive == 'T':
+            c = p.T
+        elif derive == 'reversed':
+            c = p[::-1]
+        else:
+            c = p[(0,) * len(shape)]
+        if widen == 'n_word+8':
+            c.resize(n_word=f.n_word + 8)
+        elif widen == 'n_word+8,n_frac+2':
+            c.resize(n_word=f.n_word + 8, n_frac=f.n_frac + 2)
+        elif widen == 'signed_flip':
+            c.resize(signed=not f.signed, n_word=f.n_word + 8)
+        elif widen == 'dtype':
+            c.resize(dtype=Fmt(f.signed, f.n_word + 8, f.n_frac).dtype)
+        elif widen == 'n_word=64':
+            c.resize(n_word=64)
+        else:
+            c.resize(n_word=max(1, f.n_word - 1))
+        g = fmt_of(c)
+        big = g.hi if g.hi > f.hi else g.lo              # legal in the new format, outside the parent's (when widened)
+        idx = (0,) * np.ndim(c.val)
+        if write == 'setitem' and idx:
+            c[idx] = g.fvalue(big) if g.n_word <= 52 else big
+        elif write == 'set_val_index' and idx:
+            c.set_val(g.fvalue(big) if g.n_word <= 52 else big, index=idx)
+        elif write == 'set_val_raw_index' and idx:
+            c.set_val(big, raw=True, index=idx)
+        elif write == 'inplace_or':
+            c |= (big if big >= 0 else 1)
+        else:
+            c.set_val(big, raw=True)
+    except Exception as e:
+        acc.violation('exception', case, '%s%s %s / %s / %s raised %r' % (f.dtype, shape, derive, widen, write, e), {'part': 'V', 'derive': derive, 'widen': widen, 'write': write})
+        return
+    for nm, o in (('parent', p), ('derived', c)):
+        bad = wellformed(o)
+        if bad:
+            acc.violation('illformed', case, '%s%s: after %s, resize(%s) and a write (%s) through the derived object the %s is ill-formed: %s'
+                          % (f.dtype, shape, derive, widen, write, nm, bad[:2]), {'part': 'V', 'derive': derive, 'widen': widen, 'who': nm})
+            return
+    acc.outcome('views_ok')
+
+
+def views(acc, nw):
+    for signed in (True, False):
+        for nf in sorted({0, nw // 2}):
+            f = Fmt(signed, nw, nf)
+            for shape in ((4,), (2, 2)):
+                for d in DERIVE:
+                    for w in WIDEN:
+                        for wr in WRITE:
+                            views_case(acc, f, shape, d, w, wr)
+
+
 # ------------------------------------------------------------------------------------------ driver
 def bounds(tier, seed):
     return {'programs': '%d roots (8 formats x {lo, -1/0, hi} x {scalar,(3,),(2,2)} + 3 scaled) x menu of %d events, BFS depth %d with dedup on '
@@ -369,6 +451,8 @@ def shards(tier, seed):
             out.append({'part': 'P', 'root': ri, 'first': None, 'depth': 2, 'dedup': False})
     for nw in (1, 2, 8, 31, 32, 33, 52):
         out.append({'part': 'S', 'nw': nw})
+    for nw in (2, 8, 16, 44, 52):
+        out.append({'part': 'V', 'nw': nw})
     return out
 
 
@@ -383,6 +467,8 @@ def run_shard(sh):
             roots, depth = [(e,) for e in MENU[sh['first'][0]:sh['first'][1]]], sh['depth'] - 1
         n, t, deep = bfs(system, acc, depth, dedup=sh['dedup'], roots=roots)
         acc.extra.setdefault('depths', set()).add((sh['dedup'], deep + (0 if sh['first'] is None else 1)))
+    elif sh['part'] == 'V':
+        views(acc, sh['nw'])
     else:
         saturation(acc, sh['nw'])
     return acc
@@ -399,6 +485,8 @@ def replay(case):
         except Disabled:
             return []
         system.check(st, h, acc)
+    elif case['part'] == 'V':
+        views_case(acc, Fmt(*case['fmt']), tuple(case['shape']), case['derive'], case['widen'], case['write'])
     else:
         one_sat(acc, Fmt(*case['fmt']), case['rounding'], case['route'], tuple(case['val']), case['carrier'])
     return acc.violations
